@@ -284,7 +284,49 @@ func checkVals(c *core.Ctx, vals []Val) {
 	for _, v := range vals {
 		a.WriteString("\t" + q(v.Expr, "tgt.") + ",\n")
 	}
-	a.WriteString("}\n\nfunc main() {\n\ttk := namer.NewDefaultImportTracker()\n\tnm := namer.NewRawNamer(\"" + modPath + "/tgt\", tk)\n\ttexts := make([]string, len(values))\n\tagain := make([]string, len(values))\n\tpanics := make([]string, len(values))\n\trender := func(v any) string {\n\t\tbuf := bytes.NewBuffer(nil)\n\t\tgengo.NewSnippetWriter(buf, namer.NameSystems{\"raw\": nm}).Render(snippet.Value(v))\n\t\treturn buf.String()\n\t}\n\tfor i, v := range values {\n\t\tfunc() {\n\t\t\tdefer func() {\n\t\t\t\tif x := recover(); x != nil {\n\t\t\t\t\tpanics[i] = fmt.Sprint(x)\n\t\t\t\t}\n\t\t\t}()\n\t\t\ttexts[i] = render(v)\n\t\t\tagain[i] = render(v)\n\t\t}()\n\t}\n\t_ = json.NewEncoder(os.Stdout).Encode(map[string]any{\"texts\": texts, \"again\": again, \"panics\": panics, \"imports\": tk.Imports()})\n}\n")
+	a.WriteString(`}
+
+type session struct {
+	Target  string            ` + "`json:\"target\"`" + `
+	Texts   []string          ` + "`json:\"texts\"`" + `
+	Again   []string          ` + "`json:\"again\"`" + `
+	Panics  []string          ` + "`json:\"panics\"`" + `
+	Imports map[string]string ` + "`json:\"imports\"`" + `
+}
+
+// every session is one generated file: its own tracker, namer and writer, all in one process
+func renderSession(target string) session {
+	tk := namer.NewDefaultImportTracker()
+	nm := namer.NewRawNamer(target, tk)
+	s := session{Target: target, Texts: make([]string, len(values)), Again: make([]string, len(values)), Panics: make([]string, len(values))}
+	render := func(v any) string {
+		buf := bytes.NewBuffer(nil)
+		gengo.NewSnippetWriter(buf, namer.NameSystems{"raw": nm}).Render(snippet.Value(v))
+		return buf.String()
+	}
+	for i, v := range values {
+		func() {
+			defer func() {
+				if x := recover(); x != nil {
+					s.Panics[i] = fmt.Sprint(x)
+				}
+			}()
+			s.Texts[i] = render(v)
+			s.Again[i] = render(v)
+		}()
+	}
+	s.Imports = tk.Imports()
+	return s
+}
+
+func main() {
+	var out []session
+	for _, target := range []string{"` + modPath + `/tgt", "` + modPath + `/tgt", "` + modPath + `/vt", "` + modPath + `/tgt"} {
+		out = append(out, renderSession(target))
+	}
+	_ = json.NewEncoder(os.Stdout).Encode(out)
+}
+`)
 	t := pipe.Tree{
 		"go.mod": gomod, "go.sum": string(sum),
 		"vt/vt.go": vtSource, "vt2/vt2.go": vt2Source, "tgt/tgt.go": tgtSource,
@@ -300,17 +342,38 @@ func checkVals(c *core.Ctx, vals []Val) {
 		c.Internal("program A (rendering) failed: %v", err)
 		return
 	}
-	var r rendered
-	if err := json.Unmarshal(out, &r); err != nil || len(r.Texts) != len(vals) {
+	var sessions []rendered
+	if err := json.Unmarshal(out, &sessions); err != nil || len(sessions) != 4 || len(sessions[0].Texts) != len(vals) {
 		c.Internal("program A output: %v", err)
 		return
 	}
-	c.Trans(2 * len(vals))
+	r := sessions[0]
+	c.Trans(8 * len(vals))
 	failed := make([]bool, len(vals))
 	fail := func(i int, class, format string, args ...any) {
 		if !failed[i] {
 			failed[i] = true
 			c.Fail(class, Case{vals[i]}, "value %s of type %s: "+format, append([]any{q(vals[i].Expr, ""), q(vals[i].Type, "")}, args...)...)
+		}
+	}
+	// a later generated file of the same process (sessions 1 and 3; session 2 renders for another
+	// target in between) must render every value identically and register the same imports
+	for _, si := range []int{1, 3} {
+		o := sessions[si]
+		for i := range vals {
+			if o.Texts[i] != r.Texts[i] || o.Panics[i] != r.Panics[i] {
+				fail(i, "", "rendered as %q in the first file of the process but as %q (panic %q) in file %d for the same target", r.Texts[i], o.Texts[i], o.Panics[i], si+1)
+			}
+		}
+		if fmt.Sprint(o.Imports) != fmt.Sprint(r.Imports) {
+			witness := vals[0]
+			for _, v := range vals {
+				if strings.Contains(v.Type, "vt.") && strings.Contains(v.Type, "[") {
+					witness = v // a value whose literal names a foreign type: reproduces alone
+					break
+				}
+			}
+			c.Fail("", Case{witness}, "file %d of the process registered the imports %v, the first file %v, for the same values and target", si+1, o.Imports, r.Imports)
 		}
 	}
 	groups := map[string][]int{}
@@ -517,7 +580,7 @@ func replay(c *core.Ctx, raw json.RawMessage) {
 func init() {
 	core.Register(&core.Prop{
 		ID: "C10", Level: "model_checking", Run: run, Replay: replay, Shards: 4,
-		Rule:        "value model: every listed boundary value of every scalar type (bool, all int/uint kinds incl. uintptr, runes, float32/64 edge values, strings with quotes/newlines/backquotes/non-UTF-8/NUL), named scalars of two foreign packages and of the target package, a one-level pointer to each of them (and nil pointers); for 9 element types: nil/empty/1/3-element slices, arrays, pointers, pointers to slices, maps under 6 key types (string, int, bool, named string, array, struct) incl. two insertion orders of the same map; structs with zero and non-zero members of every field kind (pointer to zero struct, zero struct as map value / slice element, embedded, anonymous, cross-package); depth-2 containers. Each is rendered by snippet.Value in a compiled program, type-checked as `var got T = <text>` in the target package and compared at run time with the original (nil == empty); same text when rendered twice and for both insertion orders. Non-trivial = composite/pointer values; states = distinct type shapes",
+		Rule:        "value model: every listed boundary value of every scalar type (bool, all int/uint kinds incl. uintptr, runes, float32/64 edge values, strings with quotes/newlines/backquotes/non-UTF-8/NUL), named scalars of two foreign packages and of the target package, a one-level pointer to each of them (and nil pointers); for 9 element types: nil/empty/1/3-element slices, arrays, pointers, pointers to slices, maps under 6 key types (string, int, bool, named string, array, struct) incl. two insertion orders of the same map; structs with zero and non-zero members of every field kind (pointer to zero struct, zero struct as map value / slice element, embedded, anonymous, cross-package); depth-2 containers. Each is rendered by snippet.Value in a compiled program, type-checked as `var got T = <text>` in the target package and compared at run time with the original (nil == empty); same text when rendered twice and for both insertion orders; the whole list is rendered in 4 sessions (files) of one process - same target, same target again, another target, the first target again - and sessions for the same target must agree in texts and registered imports. Non-trivial = composite/pointer values; states = distinct type shapes",
 		Assumptions: []string{"NaN/Inf, complex numbers, pointer map keys, func/chan/interface-typed members and unexported fields are outside the stated domain"},
 	})
 }
